@@ -76,6 +76,10 @@ def _map_facts(chk, cls, mname):
 
 def check(chk):
     pm = chk.pm
+    # the maps use the matrices of THIS fit: no memo of a derived matrix survives a refit (shared with C14)
+    from . import c14 as _c14
+    from .c01 import _Relabel as _RL
+    _c14._cache(_RL(chk, "HIST.cache", "ADJOINT.cache"))
     wh = pm.cls("xeofs.preprocessing.whitener.Whitener")
     pca = pm.cls("xeofs.preprocessing.pca.PCA")
     for cls in (wh, pca):
